@@ -1,5 +1,6 @@
 import Originium.Model.DBProofs
 import Originium.Model.DBTie
+import Originium.Model.TypesTie
 /-! # C01 — a read returns the latest committed write, whatever the engine did in between
 
 `DB.run steps` executes any sequence of: commits (single- and multi-key, Set and Delete, any key and
@@ -74,9 +75,20 @@ theorem C01_code_search_order (lb : List E → VK → Option E) (slb : VK → Op
       | none => (slb key).filter (fun e => e.key.user == key.user) :=
   DBTie.search_eq lb slb mem imms key
 
+/-- what the caller of `DB.search` gets: the translated search followed by the translated `types.Value` (`GenTypes.value`,
+    regenerated from `/repo/types/types.go`) is the value of the newest committed version at or below the read timestamp, and
+    "not found" when that version is a delete or there is none -/
+theorem C01_code_read_value (mayContain : TableM → Bytes → Bool)
+    (hbloom : ∀ t e, e ∈ t.entries → mayContain t e.key.user = true)
+    (steps : List Step) (s : St) (hrun : DB.run steps = some s) (k : Bytes) (r : Nat) (hr : s.low ≤ r) :
+    (GenDB.search (fun g key => g.find? (geKey vlt key)) (fun key => search mayContain s.tables key.user key.ts)
+      s.mem s.imms ⟨k, r⟩).bind (fun e => GenTypes.value e.tomb e.value) = valueOf (newestBrute s.committed k r) := by
+  rw [TypesTie.value_eq, C01_code_search mayContain hbloom steps s hrun k r hr]
+
 #print axioms C01_get_snapshot
 #print axioms C01_get_latest
 #print axioms C01_background_invisible
 #print axioms C01_code_search
 #print axioms C01_code_search_order
+#print axioms C01_code_read_value
 end Props
